@@ -13,7 +13,8 @@
      copy shifted beyond all node ids of the program); blame: the name of the copy, Duplicate.
    - phrase replacements (Mini/Walk.v): the right-hand side of an assignment / return / initial value replaced
      by a literal or an object of a type that does not fit (TypeMismatch at it); one actual of a call replaced
-     so that no overload fits (NoOverload at the callee); an association element dropped (MissingAssoc at the
+     so that no overload fits, or the name of a subprogram used without an actual list, or a procedure call
+     without its actuals / with another subprogram as callee (NoOverload at the callee); an association element dropped (MissingAssoc at the
      instantiated unit's name); `<=` and `:=` exchanged (KindMismatch at the target).
    For phrase replacements eligibility is decided in the environment the reference records for the phrase
    of the ORIGINAL program (`walk_program`); that the whole planted program is then blamed at that node is
@@ -398,7 +399,8 @@ Inductive fsite :=
 | SRoot (s : nid) (e : expr)               (* root expression of phrase s := e                        *)
 | SArg (s : nid) (k : nat) (e : expr)      (* k-th actual of the call that is the root of phrase s    *)
 | SDrop (s : nid) (port : bool) (x : ident)(* association of formal x dropped from instantiation s     *)
-| SFlip (s : nid).                         (* signal assignment <-> variable assignment                *)
+| SFlip (s : nid)                          (* signal assignment <-> variable assignment                *)
+| SStmt (s : nid) (st : stmt).             (* statement s := st (calls without actuals, wrong callee)  *)
 
 Definition plant_phrase (st : fsite) (ph : phrase) : phrase :=
   match st with
@@ -422,10 +424,11 @@ Definition plant_phrase (st : fsite) (ph : phrase) : phrase :=
       | PStmt (SVar i t e) => PStmt (SSig i t e)
       | _ => ph
       end
+  | SStmt _ st' => match ph with PStmt _ => PStmt st' | _ => ph end
   | _ => ph
   end.
 Definition site_nid (st : fsite) : nid :=
-  match st with SZap s | SDup s | SRoot s _ | SArg s _ _ | SDrop s _ _ | SFlip s => s end.
+  match st with SZap s | SDup s | SRoot s _ | SArg s _ _ | SDrop s _ _ | SFlip s | SStmt s _ => s end.
 
 Definition plant (st : fsite) (p : program) : program :=
   match st with
@@ -487,6 +490,7 @@ Definition expect_nid_at (st : fsite) (m : nid) (i : option pinfo) : nid :=
                   | _ => 0 end
       | None => 0
       end
+  | SStmt s st' => stmt_nid st'
   end.
 Definition expect_nid (st : fsite) (p : program) : nid :=
   expect_nid_at st (max_nid p) (find_phrase p (site_nid st)).
@@ -532,6 +536,46 @@ Definition obj_idents (p : program) : list ident :=
 Definition obj_candidates (p : program) : list expr :=
   map (fun x => ENam (NId (Occ (fresh_nid p) x))) (obj_idents p).
 
+(* names of subprograms: used without an actual list where a value is expected, or as the callee of a procedure call *)
+Definition decl_sub_idents (ds : list decl) : list ident :=
+  flat_map (fun d => match d with
+                     | DFunDecl o _ _ | DProcDecl o _ | DFunBody o _ _ _ _ | DProcBody o _ _ _ => [o_id o]
+                     | _ => [] end) ds.
+Fixpoint conc_sub_idents (c : conc) : list ident :=
+  match c with CBlock _ ds b => decl_sub_idents ds ++ concs_sub_idents b | _ => [] end
+with concs_sub_idents (c : concs) : list ident :=
+  match c with CNil => [] | CCons x r => conc_sub_idents x ++ concs_sub_idents r end.
+Definition sub_idents (p : program) : list ident :=
+  flat_map (fun l => flat_map (fun u =>
+    match u_body u with
+    | UPkg _ ds | UBody _ ds | UGen _ _ ds => decl_sub_idents ds
+    | UArch _ _ ds b => decl_sub_idents ds ++ concs_sub_idents b
+    | _ => []
+    end) (l_units l)) p.
+(* names of functions only *)
+Definition decl_fun_idents (ds : list decl) : list ident :=
+  flat_map (fun d => match d with DFunDecl o _ _ | DFunBody o _ _ _ _ => [o_id o] | _ => [] end) ds.
+Fixpoint conc_fun_idents (c : conc) : list ident :=
+  match c with CBlock _ ds b => decl_fun_idents ds ++ concs_fun_idents b | _ => [] end
+with concs_fun_idents (c : concs) : list ident :=
+  match c with CNil => [] | CCons x r => conc_fun_idents x ++ concs_fun_idents r end.
+Definition fun_idents (p : program) : list ident :=
+  flat_map (fun l => flat_map (fun u =>
+    match u_body u with
+    | UPkg _ ds | UBody _ ds | UGen _ _ ds => decl_fun_idents ds
+    | UArch _ _ ds b => decl_fun_idents ds ++ concs_fun_idents b
+    | _ => []
+    end) (l_units l)) p.
+Definition sub_candidates (p : program) : list expr :=
+  map (fun x => ENam (NId (Occ (fresh_nid p) x))) (sub_idents p).
+(* a procedure call without its actuals / with a function as callee (node id of the callee kept) *)
+Definition call_candidates (p : program) (i : pinfo) : list fsite :=
+  match pi_ph i with
+  | PStmt (SCall g a) =>
+      (match a with ANil => [] | _ => [SStmt (pi_id i) (SCall g ANil)] end) ++
+      map (fun x => SStmt (pi_id i) (SCall (FId (Occ (o_nid (fname_occ g)) x)) a)) (fun_idents p)
+  | _ => []
+  end.
 Definition root_phrases (p : program) : list pinfo :=
   filter (fun i => match phrase_root (pi_ph i) with Some _ => true | None => false end) (walk_program p).
 Fixpoint seq_nat (n : nat) : list nat := match n with O => [] | S k => seq_nat k ++ [k] end.
@@ -559,7 +603,9 @@ Definition site_candidates (f : fclass) (p : program) : list fsite :=
         | Some (ECall g a) =>
             flat_map (fun k => map (SArg (pi_id i) k) (lit_candidates p ++ obj_candidates p)) (seq_nat (args_len a))
         | _ => []
-        end) (root_phrases p)
+        end) (root_phrases p) ++
+      flat_map (fun i => map (SRoot (pi_id i)) (sub_candidates p)) (root_phrases p) ++
+      flat_map (call_candidates p) (walk_program p)
   | FMissingAssoc =>
       flat_map (fun i =>
         match pi_ph i with
